@@ -144,20 +144,20 @@ PROPS = {
         assumptions=["the write of a request is one event of the model (DrvOp): it completes. A write that blocks for good - the peer stops reading - stalls the real driver, which serves nothing else meanwhile: known finding F49, oracle-only wstall cases", "callers on several threads are modelled by the Alloc / Enqueue split of Start (id taken under the shared mutex, request handed to the driver later; exercised on the real code through the hook verif_hold_next_alloc); true parallelism inside next_msgid itself is the mutex's business (oracle-only mt lane)", "theorems over whole histories: below the wrap-around of the 31-bit id counter (beyond it: the id-table hook lane)"],
     ),
     "C13": dict(
-        groups=[("conn", 600, 40000), ("pagedstop", 300, 30000), ("stall", 24, 600), ("wstall", 3, 3)],
+        groups=[("conn", 600, 40000), ("pagedstop", 300, 30000), ("stall", 24, 600), ("wstall", 3, 3), ("useradapter", 4, 4)],
         exact_lanes=["msgid"],
         rule="scripts of 3-16 steps over the real driver (current-thread runtime, paused clock, in-memory transport): start single/direct-search/adapted-search/abandon/unbind operations on cloned handles with and without timeouts (0, 1, 1000, 5000 ms), one start in five held between id allocation and the send to the driver while other operations overtake it, server responses for live, finished and unknown ids (entries, references, intermediates, done, other ops) delivered in two writes, clock advances around the deadlines, next()/finish() calls, EOF / garbage / read error / write error / partial message / handle drop; observation after EVERY step (per-op status and delivered tokens, request log, id table, routing gauges, driver result). non-trivial = distinct script in which at least one operation completed. one script in four is driven to quiescence (every op answered, every stream finished); oracle: nothing reserved or routed at quiescence",
         trivial=[],
         trusted=["modelled not verified: Tokio scheduler, mpsc/oneshot FIFO and close semantics, time::timeout polling the inner future first, select! as nondeterministic choice among ready branches; script-to-event mapping of the runner (ocaml/connrun.ml settle loop)"],
-        assumptions=["the write of a request is one event of the model (DrvOp): it completes. A write that blocks for good - the peer stops reading - stalls the real driver, which serves nothing else meanwhile: known finding F49, oracle-only wstall cases", "callers on several threads are modelled by the Alloc / Enqueue split of Start (id taken under the shared mutex, request handed to the driver later; exercised on the real code through the hook verif_hold_next_alloc); true parallelism inside next_msgid itself is the mutex's business (oracle-only mt lane)", "theorems over whole histories: below the wrap-around of the 31-bit id counter (beyond it: the id-table hook lane)"],
+        assumptions=["adapters: the models know the built-in ones (EntriesOnly, PagedResults); what only a user-written adapter can do - fail the stream with an error of its own, give up its own call up the chain - is decided by the oracle-only useradapter cases (F53, F54)", "the write of a request is one event of the model (DrvOp): it completes. A write that blocks for good - the peer stops reading - stalls the real driver, which serves nothing else meanwhile: known finding F49, oracle-only wstall cases", "callers on several threads are modelled by the Alloc / Enqueue split of Start (id taken under the shared mutex, request handed to the driver later; exercised on the real code through the hook verif_hold_next_alloc); true parallelism inside next_msgid itself is the mutex's business (oracle-only mt lane)", "theorems over whole histories: below the wrap-around of the 31-bit id counter (beyond it: the id-table hook lane)"],
     ),
     "C10": dict(
-        groups=[("stream", 2000, 150000), ("conn", 300, 20000), ("pagedstop", 400, 30000), ("pagedlost", 150, 6000), ("paged", 300, 20000), ("pagedabandon", 80, 3000)],
+        groups=[("stream", 2000, 150000), ("conn", 300, 20000), ("pagedstop", 400, 30000), ("pagedlost", 150, 6000), ("paged", 300, 20000), ("pagedabandon", 80, 3000), ("useradapter", 4, 4)],
         exact_lanes=["stream", "paged"],
         rule="server scripts of 0-7 items (entries, references with 1-2 URIs, intermediate responses) ending with a SearchResultDone (rc 0/4/10/32/53, 0-2 referral URIs, 0-2 controls), all delivered before the first call, x call sequences of 0-17 next()/finish()/state() calls in any order including past the end, on direct streams, EntriesOnly-adapted streams and Ldap::search(); plus connection scripts where items arrive between calls. non-trivial = distinct case with at least one call",
         trivial=[],
         trusted=["modelled not verified: the adapter chain as structural recursion over [EntriesOnly]; async_trait dispatch; tokio mpsc as a list + closed flag"],
-        assumptions=["user-defined adapters are out of scope", "items are delivered before the calls in the stream lane (timing and interleaving are the conn lane's)"],
+        assumptions=["adapters: the models know the built-in ones (EntriesOnly, PagedResults); what only a user-written adapter can do - fail the stream with an error of its own, give up its own call up the chain - is decided by the oracle-only useradapter cases (F53, F54)", "user-defined adapters are out of scope", "items are delivered before the calls in the stream lane (timing and interleaving are the conn lane's)"],
     ),
     "C16": dict(
         groups=[("paged", 1500, 100000), ("pagedabandon", 80, 3000)],
